@@ -1,6 +1,6 @@
 # C09: schema compilers emit Go code that implements the schema.
 #   run_tl(ck)   TL half: tl/parser (spec/TlSem.tla, spec/gen/TlShape_Gen.tla, spec/trace/TlSem_Trace.tla)
-#   run_tlb(ck)  TL-B half: tlb/parser (spec/TlbMini.tla, spec/gen/TlbShape_Gen.tla, spec/trace/TlbMini_Trace.tla)
+#   run_tlb(ck)  TL-B half: tlb/parser (spec/TlbMini.tla, spec/gen/TlbShape_Gen.tla incl. its Either family, spec/trace/TlbMini_Trace.tla)
 import copy, json, os, re, shutil, sys
 import vlib
 from vlib import Infra, log
@@ -453,11 +453,17 @@ def run_tl(ck, mod):
 RULE_TLB = ("TL-B half. TlbShape_Gen (TLC over TlbMini.tla) enumerates declaration shapes over {uintN intN bitsN (## N) Bool, Maybe T, Maybe ^T, "
             "Either L R (incl. X/^X), ^T, ^[anonymous], tagged / untagged records, $- and #-tagged unions, HashmapE with inline, referenced and record "
             "values}: every single-field shape and CRC-sampled sequences of 2..4, each in a schema Inner, NoTag, Alt, Hx, Main (tag cycling #8hex/#2hex/$bin/"
-            "none/#3hex) and a 2..3-constructor union with rotations; values of every generated type with the cell TlbMini!Enc requires. The runner renders "
+            "none/#3hex) and a 2..3-constructor union with rotations; values of every generated type with the cell TlbMini!Enc requires. The Either family "
+            "(always all 96 schemas): (Either l r) for every l, r in {X, ^X, Y, ^Y} with (X, Y) = (Inner, uint16) and (uint8, Alt) -- same and different types, "
+            "reference on the left only / right only / both / none -- as the only field, under Maybe, and between other fields (bits and a reference before, a "
+            "reference and a bit after); their values take the left and the right side in turn (and `nothing` under Maybe; TLC refuses to emit a schema whose "
+            "vectors miss a side). The runner renders "
             ".tlb text, runs /repo's tlb/parser twice (identical output required), compiles the generated struct types (one go build per 200 packages) "
             "and the driver marshals each value with tlb.Marshal: cells are compared with the vector (S->C) and every call is judged by TlbMini_Trace "
             "(TlbMini!Matches: bit-exact, any HmLabel form; error iff the value does not fit a cell). Random larger TL-B schemas with Go-generated values "
-            "go the same C->S way.")
+            "go the same C->S way. Canaries of the Either family: TLC also emits, for a value of (Either ^X X), the cell with the reference on the other side "
+            "(the declaration with the ^ exchanged); TlbMini!Matches must refuse it at generation time, the driver must report a mismatch when it is the "
+            "expectation, and TlbMini_Trace must reject an event carrying it (left and right value each), while the prescribed cells pass.")
 
 
 def tlb_type_text(t):
